@@ -4,7 +4,7 @@
    [part ("ctor"|"name"|"conv"), kind, flags, hasShort, dflt,             -- constructor input
     role, name, nonStr,                                                     -- name input
     type, nullable, isNone, text, hasF, fnum, fden,                         -- conversion input (+ exact value of a float literal)
-    obs: [accepted, cls, nflags, dkind, preds, res]]                        -- what the real code did            *)
+    obs: [accepted, cls, nflags, dkind, preds, res, reset, again]]                        -- what the real code did            *)
 EXTENDS Elements, TraceKit
 
 VARIABLES tid, l
@@ -27,6 +27,11 @@ Ctor(e) ==
   /\ Check(tid, l, "P.ctor.consistent", e.kind,
            e.obs.accepted => ConsistentObs(e.kind, e.flags, e.dflt, e.obs.nflags, e.obs.dkind))
   /\ Check(tid, l, "P.ctor.reports", e.kind, e.obs.accepted => e.obs.preds = Preds(e.kind, e.obs.nflags))
+  \* the same object after its default was withdrawn (a multi-valued element falls back to the empty list, any other to
+  \* none) and after the original default was given again
+  /\ Check(tid, l, "P.ctor.reset", e.obs.reset, (e.obs.accepted /\ ((e.kind = "arg" /\ ~Preds(e.kind, e.obs.nflags).required) \/ (e.kind = "opt" /\ Preds(e.kind, e.obs.nflags).acceptsValue))) =>
+           /\ e.obs.reset = (IF Preds(e.kind, e.obs.nflags).multi THEN "list" ELSE "none")
+           /\ e.obs.again = e.obs.dkind)
   /\ Note(tid, l, "A.ctor.nflags", e.obs.accepted => e.obs.nflags = NormalOf(e))
 
 NameOK(e) == /\ ~e.nonStr
